@@ -45,10 +45,6 @@ Emb(e, v) == <<Dot(e[1], v) + e[4][1], Dot(e[2], v) + e[4][2], Dot(e[3], v) + e[
 EmbH(e, p) == <<Dot(e[1], <<p[1], p[2]>>) + e[4][1] * p[3], Dot(e[2], <<p[1], p[2]>>) + e[4][2] * p[3],
                 Dot(e[3], <<p[1], p[2]>>) + e[4][3] * p[3], p[3]>>
 
-\* segments: Cartesian integer endpoints; membership of a homogeneous point (w >= 0)
-OnSegN(a, b, p) == LET w == W(p) u == VSub(b, a) v == VSub(AffPart(p), VScale(w, a)) IN
-   /\ w > 0
-   /\ Proportional(u, v) /\ (IsZeroV(v) \/ (0 <= Dot(u, v) /\ Dot(u, v) <= w * Norm2(u)))
 \* ray from a in direction d (endpoint at infinity): finite points a + t d, t >= 0, and the endpoint itself
 OnRayN(a, d, p) == LET w == W(p) v == VSub(AffPart(p), VScale(w, a)) IN
    IF w = 0 THEN SameClass(AffPart(p), d) ELSE w > 0 /\ Proportional(d, v) /\ Dot(d, v) >= 0
